@@ -45,7 +45,7 @@ CHECKS = {
  'C14': dict(engine='pipesim', cat='fault_enumeration', ref='DESIGN.md §4 C14',
    technique='fault enumeration inside seeded simulation: for each sampled workload every crash point k of the recorded sink operation log (image rebuilt from the first k operations, with and without short writes) and every (kind,k,one-shot|sticky) failing sink operation',
    text='Each crash image must be rejected by the readers or serve everything completely and correctly; each injected write/seek/flush failure must not yield Ok(()). The inner loops are exhaustive over k for the sampled workloads; the outer loop is seeded search.',
-   note='half of the workloads run under a seeded schedule (runs are deterministic, so the fault-free operation log is reproducible under any fixed schedule); a panic counts as not-success and is tallied separately'),
+   note='a tenth of the workloads is large (up to 1500 items per chromosome, staged data in flight at the hand-over; fault points sampled when the operation log exceeds 400 entries); half of the workloads run under a seeded schedule (runs are deterministic, so the fault-free operation log is reproducible under any fixed schedule); a panic counts as not-success and is tallied separately'),
  'C03': dict(engine='readsim', cat='exploration', ref='DESIGN.md §4 C03',
    technique='deterministic simulation over query histories: one reader instance (plain, cached, reopened) lives through a seeded sequence of get_interval / partial iteration / get_interval_move / values / zoom / reopen operations on SimRead with short reads, EINTR and (a quarter of the histories) one hard read/seek error inside one operation; oracle = input model after every operation (an operation hit by the hard error may fail, none may answer wrongly)',
    text='After every operation of a history the answer must equal the overlap/clip oracle computed from the input, whatever was asked before; one workload class has 5200 one-item blocks so that the block cache crosses its 5000-entry reset inside a history.',
@@ -67,15 +67,15 @@ CHECKS = {
    text='Destination bytes must be exactly the written stream, once, in order, wherever the redirect lands (before the first byte, mid-stream, after the last, never), in-memory and temp-file staging; len() equals bytes written; waiting returns once the producer is done (shuttle reports a lost wake-up as deadlock).',
    note='AtomicCell is modelled by a shuttle mutex (linearizable swap with a scheduling point); temp files are real'),
  'C15': dict(engine='clisim', cat='exploration', ref='DESIGN.md §4 C15',
-   technique='seeded simulation of the merge tool (in-process, -t 1 on its current_thread runtime: 1-5 reader instances + merge + clip/adjust/threshold + the concurrent write pipeline) and of the merge/fill iterator adapters with error items injected into an input stream; oracle = per-base sum by an independent sweep',
+   technique='seeded simulation of the merge tool (in-process, -t 1 on its current_thread runtime: 1-5 reader instances + merge + clip/adjust/threshold + the concurrent write pipeline) and of the merge/fill iterator adapters with error items injected into an input stream; a fifth of the bigWig-output cases runs the tool pipeline composed from its public pieces over SimRead inputs with one hard read error (may fail, must not succeed with signal missing) and small hand-off sizes; oracle = per-base sum by an independent sweep',
    text='Tool: the per-base sum of the input models (from base 0, across the 50,000-base work windows, with cancelling values, explicit zeros, chromosomes missing from some inputs), clipped, adjusted and thresholded as documented, must equal the per-base expansion of the output for the documented output names (.bw, .bigWig, .bedGraph, --output-type). Library: merge output sorted, disjoint, zero-free and per-base equal to the sum; an Err item is propagated and nothing is emitted after it; fill/fill_start_to_end are gapless, keep every original and add only zeros.',
    note='merge_sections_many/fill are pure adapters: for them this is seeded generation plus error-item injection, labelled so; values are exact binary fractions so that summation order cannot matter'),
  'C16': dict(engine='clisim', cat='exploration', ref='DESIGN.md §4 C16',
-   technique='deterministic simulation of the four converters called in-process through their public entry functions with clap-parsed native and UCSC-style argument vectors; -t 1 natively, -t N on the simulator\'s current_thread runtime via the cfg-gated runtime override under seeded yield decisions',
+   technique='deterministic simulation of the four converters called in-process through their public entry functions with clap-parsed native and UCSC-style argument vectors; -t 1 natively, -t N on the simulator\'s current_thread runtime via the cfg-gated runtime override under seeded yield decisions; a tenth through the built binary (real threads, labelled uncontrolled), a tenth with the input on standard input, a tenth as converter runs over SimRead with one hard read error; a deterministic Reopen-contract history on the file handle the per-task readers are reopened from',
    text='bedGraph->bigWig->bedGraph and BED->bigBed->BED must return the original records in order (values equal as f32, extra columns identical) for every thread count, --parallel mode, pass mode, buffering mode, block/slot/zoom options and flag spelling; --chrom/--start/--end output must equal the range-query oracle.',
-   note='real OS-thread runtimes are replaced by the simulator\'s runtime (that is the point of the override); the multicall binary dispatch is not exercised in-process'),
+   note='real OS-thread runtimes are replaced by the simulator\'s runtime (that is the point of the override); the multicall binary dispatch is exercised by the via-binary share of the cases'),
  'C17': dict(engine='clisim', cat='exploration', ref='DESIGN.md §4 C17',
-   technique='seeded simulation: stats_for_bed_item / bigwig_average_over_bed through the cached reader on SimRead with short reads/EINTR (query history = region list); the tool in-process with -t 1 (deterministic) and -t N (real std::thread pool, uncontrolled, schedule-independent oracle)',
+   technique='seeded simulation: stats_for_bed_item / bigwig_average_over_bed through the cached reader on SimRead with short reads/EINTR and, in a third of the library cases, one hard read error (a row may be an error, never a wrong number) (query history = region list); the tool in-process with -t 1 (deterministic) and -t N (real std::thread pool, uncontrolled, schedule-independent oracle)',
    text='Per region: size, covered bases, sum, mean0, mean, min, max, NaN conventions, one row per input row in order with the requested name column, from an independent clip-and-sum oracle; -t N output must equal -t 1 output byte for byte; bigwigvaluesoverbed per-base values with 0 where no data.',
    note='the -t N path uses std::thread::spawn workers whose schedule cannot be owned without rewriting the tool; those runs are labelled uncontrolled and are not the deciding step for the statistics'),
  'C18': dict(engine='textsim', cat='exploration', ref='DESIGN.md §4 C18',
@@ -83,7 +83,7 @@ CHECKS = {
    text='After every FileView operation: same return value, same bytes, no panic. Grouped files: index equals the linear scan exactly; non-grouped: None or only true line starts. Chunks: cut only at line starts and cover the file exactly once for chunk counts 1..lines+2.',
    note='index/chunking are pure functions of the file bytes (no schedule or fault dimension) - evaluated on the same engine and labelled so; the consequence for the parallel path is checked by C11 (serial vs parallel source byte equality)'),
  'C19': dict(engine='textsim+clisim', cat='exploration', ref='DESIGN.md §4 C19',
-   technique='seeded simulation of bedtobigbed in-process (0-40 extra columns, with/without a generated schema, all thread/pass modes) for the stored schema and field count; parser totality by feeding generated schemas, all their truncations, single-token mutations and blocks of the enumeration of short delimiter strings to parse_autosql inside worker processes with a 1 GiB address-space cap and a stall watchdog',
+   technique='seeded simulation of bedtobigbed in-process (0-40 extra columns, with/without a generated schema, all thread/pass modes) and, for a tenth of the cases, through the built binary with the BED on standard input (whole, with a first line longer than 8 KiB, or through a pipe in two pieces) for the stored schema and field count; parser totality by feeding generated schemas, all their truncations, single-token mutations and blocks of the enumeration of short delimiter strings to parse_autosql inside worker processes with a 1 GiB address-space cap and a stall watchdog',
    text='Generated schema declares 3+n fields and the header field count equals it; supplied schemas are stored verbatim with their declared field count; every schema bed_autosql emits parses; the parser returns Ok or Err on every input - a panic, a watchdog kill or an allocation abort is the violation, attributed to the batch in progress and minimised by the driver.',
    note='parser totality has no schedule dimension; its only fault is resource exhaustion (F9)'),
 }
